@@ -6,8 +6,13 @@
          a3 = [kind; num_coeffs]   kind 0 = Radix2, 1 = MixedRadix, 2 = General   ([n] for op 2)
          a4 = [] (subgroup domain) | [offset] (get_coset)
          a5 = coefficients / evaluations / [tau] / [i]
-   status: [0] ok, [1;0] constructor returned None, [1;1] get_coset returned None, [2] panic *)
-From V Require Import Base.Field C07.Dft C07.Radix2 C07.MixedRadix C07.Domain.
+              reindex: [num_coeffs of the subdomain; index ...] (no index = every index of the domain)
+              filter: [num_coeffs of the subdomain; offset of the subdomain; tau]
+              mul_evals: x ++ y; sample_outside: [seed (harness only); candidate draws (model only) ...]
+              distribute: [g; c; coeffs ...]; bitrev_perm: [width; data ...]
+   status: [0] ok, [1;0] constructor returned None, [1;1] get_coset returned None,
+           [1;2] / [1;3] the same for the subdomain, [2] panic *)
+From V Require Import Base.Field C07.Dft C07.Radix2 C07.MixedRadix C07.Domain C07.Domain2.
 
 Definition ok (r : list (list Z)) : list (list Z) := [0] :: r.
 Definition err (k : Z) : list (list Z) := [[1; k]].
@@ -61,6 +66,34 @@ Definition with_domain (F : Fops Z) (p : Z) (c : fftcfg Z) (a : list (list Z))
 Definition opt_out (o : option (list Z)) : list (list Z) :=
   match o with Some l => ok [l] | None => panic end.
 
+(* run f on the subdomain new(n) of the same kind, moved to the coset `off` when given *)
+Definition with_sub (F : Fops Z) (p : Z) (c : fftcfg Z) (a : list (list Z)) (n : Z) (off : list Z)
+    (f : domain Z -> list (list Z)) : list (list Z) :=
+  match new_kind F c (nth 0 (arg 3 a) 0) n with
+  | RNone => err 2
+  | RPanic => panic
+  | RSome s =>
+      match off with
+      | [] => f s
+      | h :: _ => match get_coset F s (h mod p) with
+                  | None => err 3
+                  | Some s' => f s'
+                  end
+      end
+  end.
+
+Definition is_none {A} (o : option A) : bool := match o with None => true | Some _ => false end.
+Definition some_or0 (o : option Z) : Z := match o with Some v => v | None => 0 end.
+
+Definition run_reindex (F : Fops Z) (d s : domain Z) (l : list Z) : list (list Z) :=
+  let idx := match l with [] => map Z.of_nat (seq 0 (Z.to_nat (d_size d))) | _ => l end in
+  let r := map (reindex_by_subdomain d s) idx in
+  if existsb is_none r then panic else
+  let low := filter (fun i => i <? d_size s) idx in
+  ok [map some_or0 r;
+      map (fun i => element F d (some_or0 (reindex_by_subdomain d s i))) low;
+      map (element F s) low].
+
 Definition run_C07 (op : Z) (a : list (list Z)) : list (list Z) :=
   let p := arg0 1 a in
   let F := ZpOps p in
@@ -84,5 +117,25 @@ Definition run_C07 (op : Z) (a : list (list Z)) : list (list Z) :=
   | 11 => with_domain F p c a (fun d => ok [evaluate_all_lagrange_coefficients F d (hd 0 data)])
   | 12 => with_domain F p c a (fun d => opt_out (interpolate F q d data))
   | 13 => with_domain F p c a (fun d => ok [naive_fft F d data])
+  | 14 => with_domain F p c a (fun d => with_sub F p c a (arg0 5 a) (arg 4 a) (fun s =>
+            run_reindex F d s (tl (arg 5 a))))
+  | 15 => with_domain F p c a (fun d => with_sub F p c a (arg0 5 a) [nth 1 (arg 5 a) 0] (fun s =>
+            let tau := nth 2 data 0 in
+            match filter_polynomial F d s with
+            | None => panic
+            | Some q => ok [[evaluate_filter_polynomial F d s tau]; q; [eval F q tau]]
+            end))
+  | 16 => with_domain F p c a (fun d =>
+            let h := Nat.div2 (length data) in
+            opt_out (mul_polynomials_in_evaluation_domain F (firstn h data) (skipn h data)))
+  | 17 => with_domain F p c a (fun d =>
+            match sample_element_outside_domain F d (tl data) with
+            | None => unsupported
+            | Some t => ok [[Z.b2z (in_domain F d t); Z.b2z (fis0 F (evaluate_vanishing_polynomial F d t))]]
+            end)
+  | 18 => with_domain F p c a (fun d =>
+            let g := nth 0 data 0 in let k := nth 1 data 0 in let cs := skipn 2 data in
+            ok [distribute_powers F cs g; distribute_powers_and_mul_by_const F cs g k])
+  | 19 => ok [bitreverse_permutation F (tl data) (Z.to_nat (arg0 5 a))]
   | _ => unsupported
   end.
